@@ -2,7 +2,7 @@
 import importlib, json, os
 from .common import VERIF
 
-CLAIMED = ["c04", "c05", "c07", "c09", "c10", "c11", "c17", "c18"]
+CLAIMED = ["c04", "c05", "c07", "c09", "c10", "c11", "c16", "c17", "c18"]
 
 NOT_APPLICABLE = {
     "C06": "file-system confinement: the property is about what metadata/canonicalize/File::open return (FFI, symlinks, OS path semantics); the only solver-sized kernel sits behind percent_decode and format! which Kani cannot symbolically execute within reach (DESIGN §2, §6)",
@@ -25,6 +25,8 @@ LEVEL_TEXT = {
             "Trusted: Kani/CBMC semantics of Rust+std, the reference model kani/src/refs/ws.rs, harness code; read plans are concrete per harness (enumerated), payload sizes >= 126 bytes only via their headers."),
     "C11": ("Bounded model checking of the real WebsocketStream/Message/Frame code over a scripted connection (TcpStream read/write stubbed): Close frames are reported as ConnectionClosed and answered by exactly one well-formed Close frame (nothing more on drop); a Ping is answered by one Pong with the same payload; send()/ping() write exactly one well-formed unmasked frame each; non-blocking receive reports `nothing yet` only when no byte arrived and handles a header split across two reads like blocking receive. Symbolic keys/payloads (<= 2-3 bytes), whole / byte-wise / single-split delivery. NOT decided: message assembly from data frames and fragments (CBMC out of memory), the opening handshake.",
             "Trusted: Kani/CBMC, the five network stubs listed in the evidence (scripted read plan, capture buffer), refs/ws.rs; allocator-model diagnostics are not verdicts."),
+    "C16": ("Symbolic execution of the MIR of Cache::set and Cache::get (current tree) as an inductive step: from EVERY pre-state with 0..3 entries (thorough: 4) that satisfies the representation invariant (distinct keys, size bookkeeping = sum of lengths <= limit, times not after the clock), set(k, v) with len(v) <= limit never panics, keeps the invariant, leaves only unmodified old entries with other keys in their old order plus the new entry last, and get(k) at any later instant within the time limit returns exactly the stored item; get returns only an entry with the requested key that is not older than the time limit, and does return a matching fresh one. Counterexample pre-states are rebuilt natively through the verif hook and judged at property level.",
+            "Trusted: the MIR executor and its models (VecDeque as a bounded sequence, strings by identity, Vec<u8> as length+tag, clock as non-decreasing integers), z3; Rust's &mut/RwLock exclusivity for the multi-thread clause; handler level (files on disk) is outside."),
     "C17": ("Bounded model checking of one AuthProvider operation from an arbitrary valid pre-state (inductive step) over the crate's own Vec<User> database: a token authenticates exactly the user it was issued to iff now < expiry; refresh only extends a live token and rejects expired/unknown ones without changing anything; invalidate_session / invalidate_user_session / remove_user end authentication; create_session gives at most one live session with expiry = now + lifetime (lifetime 0 never authenticates). 1-2 users, symbolic expiries and clock. Passwords (Argon2), token randomness and the cookie route are outside.",
             "Trusted: Kani/CBMC; stubs for the clock (constant within an operation), OsRng and format!; token freshness is an assumption; allocator-model diagnostics are not verdicts."),
     "C18": ("Bounded model checking of the real Base64 encoder/decoder against an RFC 4648 reference: every input of 0..3 bytes (thorough: ..5) and later groups with symbolic tails encode exactly; every ASCII string of 0..5 symbols (thorough: ..9) decodes iff it is RFC 4648 text, to the right bytes, never panicking; decode(encode(b)) = b. SHA-1 and dates are decided by the MIR->SMT engine when built; percent-encoding is outside the claim (format!-based).",
